@@ -183,6 +183,18 @@ fn main() {
             pin_to_cpu(a.start);
             proc::worker(a, &mut out);
         }
+        "describe" => {
+            let prop = run::static_prop(args.get(2).map(|s| s.as_str()).unwrap_or("")).expect("property");
+            let num = |n: &str, d: u64| arg_val(&args, n).and_then(|v| v.parse().ok()).unwrap_or(d);
+            let (seed, r) = (num("--seed", 1), num("--run", 0));
+            let mut out = silence_repo_output();
+            install_panic_hook();
+            common::enter_process_base();
+            let (desc, ch) = run::describe(prop, proc::parse_tier(&arg_val(&args, "--tier").unwrap_or_default()), Choices::search_run(run_seed(seed, prop, r), r));
+            let _ = writeln!(out, "{desc}");
+            let _ = writeln!(out, "{}", ch.iter().map(|(s, v)| format!("{s}={v}")).collect::<Vec<_>>().join(" "));
+            common::cleanup_process_sandbox();
+        }
         "fp" => {
             let prop = run::static_prop(args.get(2).map(|s| s.as_str()).unwrap_or("")).expect("property");
             let num = |n: &str, d: u64| arg_val(&args, n).and_then(|v| v.parse().ok()).unwrap_or(d);
